@@ -186,6 +186,12 @@ def run_replay_script(script, timeout=600):
         return {"status": "timeout", "stdout": "", "stderr": "", "signatures": []}
     sigs = [l.split(" ", 1)[1].strip() if " " in l else "" for l in p.stdout.splitlines()
             if l.startswith("REPRODUCED")]
+    if not sigs and p.returncode != 0 and "Traceback" in p.stderr:
+        # the replay itself died inside the library: the real code raises on the reported input
+        tb = p.stderr.strip().splitlines()
+        frames = [l for l in tb if l.strip().startswith("File ")]
+        if frames and "/a5/" in frames[-1]:
+            sigs = ["library-raises-on-replayed-input:%s" % tb[-1].split(":")[0].strip()]
     return {"status": "ok" if p.returncode in (0, 1) else "error", "rc": p.returncode,
             "stdout": p.stdout[-4000:], "stderr": p.stderr[-4000:], "signatures": sigs}
 
@@ -333,8 +339,9 @@ def finish(pid, tier, seed, mod, results, t0, extra_cov=None, assumptions=None):
         "wall_s": round(time.time() - t0, 2),
         "violations": len(violations),
     }
-    os.makedirs(os.path.join(VERIF, "evidence"), exist_ok=True)
-    json.dump(ev, open(os.path.join(VERIF, "evidence", "%s.json" % pid), "w"), indent=1, default=str)
+    evdir = os.environ.get("VERIF_EVIDENCE_DIR") or os.path.join(VERIF, "evidence")
+    os.makedirs(evdir, exist_ok=True)
+    json.dump(ev, open(os.path.join(evdir, "%s.json" % pid), "w"), indent=1, default=str)
 
     # ---- report
     print("%s tier=%s jobs=%d paths=%d obligations=%d (non-trivial %d) unsat=%d sat=%d unknown=%d "
